@@ -70,6 +70,9 @@ STRUCTS = [
     [(1, 2, [('single', 5, None), ('single', 6, None)]), (155, 102, [('thru', 1, 3)])],
     [(154, 97, [('and', 1, 2), ('thru', 14, 16), ('single', 36, None)])],
     [(154, 97, [('single', 14, None)]), (155, 97, [('single', 15, None)]), (156, 98, [('and', 1, 3)])],
+    # a Twp/Rge that recurs after a different one (A B A), and one that is repeated back to back (A A)
+    [(154, 97, [('single', 14, None)]), (155, 97, [('thru', 1, 3)]), (154, 97, [('single', 22, None)])],
+    [(154, 97, [('single', 14, None)]), (154, 97, [('and', 15, 16)])],
 ]
 
 
@@ -114,10 +117,22 @@ def render(layout, struct, r):
     for gi, (t, rg, secs) in enumerate(struct):
         nm = NUMS[r.get('nums', 0)]
         if nm is not None:
-            t, rg = nm[gi % len(nm)]
-            if gi >= len(nm):
-                t += gi   # keep groups distinct
-        ns, ew = DIRS[(r.get('dirs', 0) + gi) % len(DIRS)] if r.get('dirs', 0) else DIRS[0]
+            distinct = []
+            for (t0, r0, _) in struct:
+                if (t0, r0) not in distinct:
+                    distinct.append((t0, r0))
+            di = distinct.index((t, rg))      # recurring Twp/Rges stay identical, distinct ones stay distinct
+            t, rg = nm[di % len(nm)]
+            if di >= len(nm):
+                t += di
+        if r.get('dirs', 0):
+            distinct_d = []
+            for (t0, r0, _) in struct:
+                if (t0, r0) not in distinct_d:
+                    distinct_d.append((t0, r0))
+            ns, ew = DIRS[(r.get('dirs', 0) + distinct_d.index((struct[gi][0], struct[gi][1]))) % len(DIRS)]
+        else:
+            ns, ew = DIRS[0]
         spell = r.get('tr', 0)
         if rg == 2 and not TR_SPELL_HAS_R[spell]:
             return None
